@@ -186,7 +186,7 @@ Definition spec_case (c : case) : sres :=
               SOk [SN (a + borrow * pow2 w - b - cy); SN borrow]
       | 92 => let p := arg c 1 * arg c 2 in SOk [SN (trunc a0 p); SN (N.shiftr p a0)]
       | 93 => SOk [SN (N.ones (N.min a1 a0))]
-      | 97 => SOk [SN (if a0 =? 0 then 0 else 1)]
+      | 97 => let b := if a0 =? 0 then 0 else 1 in SOk [SN b; SN b; SN 0; SN 1; SL [48]; SL [49]]
       | _ => SFree
       end
   | Some (ka, a) =>
@@ -239,8 +239,8 @@ Definition spec_case (c : case) : sres :=
               else if (n <? a0) || (n <? a1) then dbg_or_free P else SFree
       | 52 => let '(r, b) := s_shl_in a (if a0 =? 0 then 0 else 1) in SOk [sv ka r; SN b]
       | 53 => let '(r, b) := s_shr_in a (if a0 =? 0 then 0 else 1) in SOk [sv ka r; SN b]
-      | 54 => if a0 <=? n then same (s_rotl a a0) else SFree
-      | 55 => if a0 <=? n then same (s_rotr a a0) else SFree
+      | 54 => if a0 <=? n then same (s_rotl a a0) else if n =? 0 then same a else SFree
+      | 55 => if a0 <=? n then same (s_rotr a a0) else if n =? 0 then same a else SFree
       | 56 => SOk [SV ka a (if kind_fixed ka then 0 else n + a0) None]
       | 57 => SOk [SV ka a 0 (Some (fresh_cap ka n))]
       | 58 => let bits := lst c 0 in
